@@ -934,7 +934,7 @@ Proof.
 Qed.
 
 Theorem status_numbering : forall p l,
-  match l with s :: _ => has_suffix (bs "UNSPECIFIED") s = false | [] => True end ->
+  match l with s :: _ => is_explicit_zero p s = false | [] => True end ->
   status_values p l = (p ++ bs "UNSPECIFIED", 0) :: number_from 1 p l
   /\ forall k, (k < length l)%nat ->
        nth_error (status_values p l) (S k) = Some (status_value_name p (nth k l []), N.of_nat (S k)).
@@ -996,7 +996,7 @@ Proof.
   assert (G : In (status_value_name (status_prefix e) s)
                  (map (status_value_name (status_prefix e)) (e_status e))) by (now apply in_map).
   unfold entity_status_values. destruct (e_status e) as [|s0 r] eqn:Es; [destruct Hin|].
-  cbn [status_values_n]. destruct (has_suffix (bs "UNSPECIFIED") s0 && (first_status_number e =? 0)).
+  cbn [status_values_n]. destruct (is_explicit_zero (status_prefix e) s0 && (first_status_number e =? 0)).
   - cbn [map fst]. rewrite number_from_names. exact G.
   - cbn [map fst]. right. rewrite number_from_names. exact G.
 Qed.
